@@ -6,7 +6,7 @@ BUG="$(realpath "$1")"; DEMO="$(realpath "$2")"; FILTER="$3"
 WT=/tmp/confirm-wt-$$
 git -C /repo worktree add --detach $WT >/dev/null 2>&1
 cd $WT
-export CARGO_TARGET_DIR=/tmp/confirm-target
+export CARGO_TARGET_DIR=${CONFIRM_TARGET:-/tmp/confirm-target}
 ok=1
 git apply "$BUG" || { echo "bug does not apply"; ok=0; }
 if [ $ok = 1 ]; then
